@@ -701,9 +701,17 @@ class PVLParser(object):
         ``set`` objects are non-hashable, they cannot be members of a set,
         however, ``frozenset`` objects can.
         """
-        return frozenset(
-            self._parse_set_seq(self.grammar.set_delimiters, tokens)
-        )
+        members = self._parse_set_seq(self.grammar.set_delimiters, tokens)
+        try:
+            return frozenset(members)
+        except TypeError as err:
+            # e.g. a Sequence inside of a Set, which would be a list
+            # (unhashable) inside of a frozenset.
+            self._fatal(
+                tokens,
+                f"This PVL Set cannot be represented in Python ({err}): "
+                f"{members}",
+            )
 
     def parse_sequence(self, tokens: abc.Generator) -> list:
         """Parses a PVL Sequence.
@@ -873,7 +881,14 @@ class ODLParser(PVLParser):
         can be represented as a Python ``set`` (unlike PVL Sets,
         which must be represented as a Python ``frozenset`` objects).
         """
-        return set(self._parse_set_seq(self.grammar.set_delimiters, tokens))
+        members = self._parse_set_seq(self.grammar.set_delimiters, tokens)
+        try:
+            return set(members)
+        except TypeError as err:
+            self._fatal(
+                tokens,
+                f"ODL Sets may only contain scalar values ({err}): {members}",
+            )
 
     def parse_units(self, value, tokens: abc.Generator) -> str:
         """Extends the parent function, since ODL only allows units
